@@ -366,6 +366,25 @@ def sec_dqn_train(ck, B, S_, A):
     ck.fact("dqn.no_grad_to_target.returns_online_only", len(tr.out_names) == 4 and int(out["n_returned"][()]) == 3,
             "dqn_train returns (policy, opt_state, log): the target network is an input only")
     ck.control("control.dqn.train_ignores_gradient", [], eq_arr(out["table"], S["pol_table"]), nonlinear=True)
+    # the public entry point DQN.train(policy, opt_state, buffer, key=...) (no separate target network is handed in): still the SEMI-gradient step --
+    # the bootstrap values are those of the current parameters taken as constants, i.e. dqn_loss_grad with target := a copy of the online table
+    def step_public(algo, pol, st, batch, key):
+        out = algo.train(pol, st, batch, key=key)
+        p, ns, log = out
+        return {"table": p.table, "s": ns["s"], "loss": log["loss"]}
+    trp = trace(step_public, algo, pol, st0, batch, jax.random.key(0), argnames=["algo", "pol", "st", "batch", "key"], label=f"DQN.train[tabular {S_}x{A},B={B},buffer.sample cut,optimizer=OPT]")
+    ck.encoded(trp)
+    Sp = {n: S[n] for n in trp.in_names}
+    outp = trp.run(it, Sp)
+    Sg2 = dict(Sg)
+    for n in trg.in_names:
+        if n.startswith("tpol_"):
+            Sg2[n] = S["pol_" + n[len("tpol_"):]]
+    Gd2 = trg.run(it, Sg2)
+    upd2 = UFCall(it)("OPT", [((S_, A), F32), ((), F32)], Gd2["g"], S["st_s"], S["pol_table"])
+    want2 = {"table": np.vectorize(it.o.add, otypes=[object])(S["pol_table"], upd2[0]), "s": upd2[1], "loss": Gd2["loss"]}
+    ck.prove(f"dqn.no_grad_to_target.public_train_step@B={B},S={S_},A={A}", [], conj([eq_arr(outp[k], want2[k]) for k in want2]),
+             replay=lambda res: concrete.replay_outputs(trp, Sp, res, uf_apps=it.uf_apps, oracle=want2), nonlinear=True)
 
 
 # =============================================================================== SAC
